@@ -41,12 +41,12 @@ import (
 )
 
 type ICSCase struct {
-	Shape    string `json:"shape"`  // direct | via | child-reverts | tx-fails
-	Role     string `json:"role"`   // sender argument: origin | self (the calling contract)
-	Denom    string `json:"denom"`  // native | erc20
-	Amt      string `json:"amt"`    // decimal, or "balance+1"
-	Value    string `json:"value"`  // tx value (wei)
-	Approve  string `json:"approve"` // "" (none) | decimal limit (origin approves the contract first)
+	Shape    string `json:"shape"`    // direct | via | child-reverts | tx-fails
+	Role     string `json:"role"`     // sender argument: origin | self (the calling contract)
+	Denom    string `json:"denom"`    // native | erc20
+	Amt      string `json:"amt"`      // decimal, or "balance+1"
+	Value    string `json:"value"`    // tx value (wei)
+	Approve  string `json:"approve"`  // "" (none) | decimal limit (origin approves the contract first)
 	Receiver string `json:"receiver"` // ok | bad
 }
 
@@ -118,7 +118,9 @@ func runICS(t *testing.T, c ICSCase, class func(string)) (discs []icsDisc, nontr
 	if c.Denom == "erc20" {
 		denom = e.denomT
 	}
-	balOf := func(a sdk.AccAddress, d string) *big.Int { return app.BankKeeper.GetBalance(e.H.GetContext(), a, d).Amount.BigInt() }
+	balOf := func(a sdk.AccAddress, d string) *big.Int {
+		return app.BankKeeper.GetBalance(e.H.GetContext(), a, d).Amount.BigInt()
+	}
 	tokBal := func(who common.Address) *big.Int {
 		if b := app.Erc20Keeper.BalanceOf(e.H.GetContext(), erc20ABI(), e.token, who); b != nil {
 			return b
